@@ -102,3 +102,12 @@ claim("C18", "model_checking", "TLA+ CPU recombination on bit-vectors evaluated 
       "Trusted: TLC, Apalache/Z3, BV.tla (self-validated exhaustively at 8 bits). The link from the Apalache lemma to the Go code is by the replay on TLC's windows only. "
       "Assembler call sites (asm_func_*) are not driven.",
       "DESIGN.md section 4 C18")
+
+claim("C23", "model_checking", "TLA+ state machine of file sets (TLC, every transition with a witness history) replayed on real token.FileSet objects; generated programs for panic positions",
+      "TokenPos.tla: two file sets; AddFile+SetLinesForContent with contents over {x, LF}, Position lookups (which move the set's last-file cache, modelled as state), and "
+      "FromJson(ToJson) from one set into the other - empty or already holding files with a warm cache. The contract table (file, 1 + newlines before the offset, bytes since "
+      "the last newline + 1) for every offset of every file is emitted with every transition and compared with FileSet.Position on the real objects after replaying the "
+      "witness history. Second clause: 18 generated programs (leading blank lines x indentation x place of the call) are run and the file:line:col of the panic message "
+      "must be the newline-counting position of the call.",
+      "Trusted: TLC, the replayer. Not modelled: //line directives, MergeLine, the end offset of a content ending in a newline, empty contents.",
+      "DESIGN.md section 4 C23")
